@@ -264,6 +264,22 @@ def oracle_c15(dump, max_inputs=5):
             ev = c.evaluate([bool(v) for v in combo])
             if ev != [ref[o] for o in outs]:
                 return f'evaluate: total assignment {asg} gives {ev}'
+        # the positional entry point: evaluate_at(values in input order, output position)
+        vals = [asg[i] for i in ins]
+        for pos, o in enumerate(outs):
+            try:
+                at = c.evaluate_at(list(vals), pos)
+            except Exception as e:  # noqa: BLE001
+                return f'evaluate_at: raises {type(e).__name__} at output position {pos} under {combo}'
+            if st_name(at) == 'U':
+                if None not in combo:
+                    return f'evaluate_at: total assignment {asg} gives Undefined at output position {pos}'
+                continue
+            for vec, ref in totals.items():
+                if all(cv is None or cv == tv for cv, tv in zip(combo, vec)):
+                    if ref[o] is not at:
+                        return (f'evaluate_at: output position {pos} ({o}) reported {at} under partial {combo} but '
+                                f'completion {vec} gives {ref[o]}')
         for name, fn in (('evaluate_full_circuit', lambda: c.evaluate_full_circuit(dict(asg))),
                          ('evaluate_circuit', lambda: c.evaluate_circuit(dict(asg)))):
             res = fn()
